@@ -39,9 +39,18 @@ func SignJSON(signingName string, keyID KeyID, privateKey ed25519.PrivateKey, me
 	}{
 		Signatures: map[string]map[KeyID]spec.Base64Bytes{},
 	}
-	if err = json.Unmarshal(message, &preserve); err != nil {
+	// Read the two members by their exact names: decoding the message into the struct directly would also
+	// match case variants such as "Signatures", which are ordinary members of the object being signed.
+	var object map[string]json.RawMessage
+	if err = json.Unmarshal(message, &object); err != nil {
 		return nil, err
 	}
+	if raw, ok := object["signatures"]; ok {
+		if err = json.Unmarshal(raw, &preserve.Signatures); err != nil {
+			return nil, err
+		}
+	}
+	preserve.Unsigned = spec.RawJSON(object["unsigned"])
 	if message, err = sjson.DeleteBytes(message, "signatures"); err != nil {
 		return nil, err
 	}
@@ -85,11 +94,17 @@ func SignJSON(signingName string, keyID KeyID, privateKey ed25519.PrivateKey, me
 
 // ListKeyIDs lists the key IDs a given entity has signed a message with.
 func ListKeyIDs(signingName string, message []byte) ([]KeyID, error) {
-	var object struct {
-		Signatures map[string]map[KeyID]json.RawMessage `json:"signatures"`
-	}
-	if err := json.Unmarshal(message, &object); err != nil {
+	var members map[string]json.RawMessage
+	if err := json.Unmarshal(message, &members); err != nil {
 		return nil, err
+	}
+	var object struct {
+		Signatures map[string]map[KeyID]json.RawMessage
+	}
+	if raw, ok := members["signatures"]; ok {
+		if err := json.Unmarshal(raw, &object.Signatures); err != nil {
+			return nil, err
+		}
 	}
 	var result []KeyID
 	for keyID := range object.Signatures[signingName] {
